@@ -120,6 +120,10 @@ def one(ctx, i, tmproot):
                 except SyntaxError as e:
                     ctx.report(dict(tb, field="file", tag="does_not_parse", expected="valid python", observed=str(e)[:100]), dict(replay, after=after_src))
                     continue
+                try:
+                    compile(after_src, fn, "exec")  # e.g. a duplicated argument name parses but does not compile
+                except SyntaxError as e:
+                    ctx.report(dict(tb, field="file", tag="does_not_compile", expected="compilable module", observed=str(e)[:100]), dict(replay, after=after_src))
                 ctx.event("files_compared")
                 a_top, a_sib, a_doc = others(a_tree, p.names[kind], DEF_NAME[kind])
                 # anything appended with the target's simple name is "the definition that was added"
